@@ -341,7 +341,11 @@ def scenario(job):
                         continue
                     try:
                         tmu.begin()
-                        db.undoMultiple(ids, tmu.get())
+                        n_before = len(db.undoLog(0, 1000))
+                        if op == 'u1':
+                            db.undo(ids[0], tmu.get())           # the single-id form, with the caller's transaction
+                        else:
+                            db.undoMultiple(ids, tmu.get())
                         if op == 'ul':
                             # meta data the storage refuses at tpc_begin: the undo transaction fails and must leave
                             # no lock behind (the following commits would block)
@@ -349,6 +353,8 @@ def scenario(job):
                         tmu.commit()
                         if op == 'ul':
                             raise AssertionError('an undo transaction with 70000 bytes of description was accepted')
+                        if len(db.undoLog(0, 1000)) <= n_before:
+                            raise AssertionError('the committed undo transaction is not in the undo log (nothing was undone)')
                     except (UndoError, ConflictError):
                         tmu.abort()
                     except Exception as ex:
